@@ -42,7 +42,11 @@ JOBS += [
     sj('scalar_pack_bools'),
     sj('scalar_find_run_length_i32'),
     sj('scalar_crc32c'),
-    sj('scalar_match_copy', loops=3, defines=X86 + ['CQV_MEMCPY_EXACT=16'], unwindset=UNW_SCALAR + ['memcpy.0:17']),
+    # unbounded contract of scalar_match_copy is in the overlay but does not close (cbmc > 600 s); bounded instead
+    dict(name='c15_scalar_match_copy_bounded', entry='h_scalar_match_copy_bounded', prop='C15', harness='harness/C15/scalar.c',
+         overlays=[], loop_contracts=False, unwindset=['scalar_match_copy.0:8', 'scalar_match_copy.1:9', 'scalar_match_copy.2:50', 'memcpy.0:17'],
+         defines=X86 + ['CQV_MEMCPY_EXACT=16'], functions=['scalar_match_copy'],
+         level='bounded', bound='offset 1..32, len 0..48, all buffer contents', wip=True, timeout=600),
     sj('scalar_match_length'),
     sj('scalar_count_non_nulls'),
     sj('scalar_build_null_bitmap', loops=2),
@@ -75,7 +79,9 @@ JOBS += [
     ej('fill_def_levels', loops=2),
     ej('prefix_sum_i32', loops=2, checks=NO_OVF), ej('prefix_sum_i64', loops=2, checks=NO_OVF),
     ej('gather_i32', loops=3), ej('gather_i64', loops=2), ej('gather_float', loops=3), ej('gather_double', loops=2),
-    ej('byte_stream_split_encode_float', loops=2), ej('byte_stream_split_decode_float', loops=2),
+    # 4-byte memcpy calls only: exact byte-wise memcpy model of width 4 (fewer conditional array updates)
+    ej('byte_stream_split_encode_float', loops=2, defines=['__SSE4_2__=1', 'CQV_MEMCPY_EXACT=4'], unwindset=[u for u in UNW_IA32 if u != 'memcpy.0:17'] + ['memcpy.0:5'] + UNW_SSE),
+    ej('byte_stream_split_decode_float', loops=2, defines=['__SSE4_2__=1', 'CQV_MEMCPY_EXACT=4'], unwindset=[u for u in UNW_IA32 if u != 'memcpy.0:17'] + ['memcpy.0:5'] + UNW_SSE),
     ej('byte_stream_split_encode_double', loops=2), ej('byte_stream_split_decode_double', loops=1),
     ej('unpack_bools', loops=2),   # full count domain (591c517)
     # domain of the SSE kernel is documented as bytes 0/1 ("Input bytes should be 0 or 1"); the claim is made element by
@@ -83,9 +89,15 @@ JOBS += [
     ej('pack_bools', loops=1, name='c15_sse_pack_bools_01', defines=E['defines'] + ['CQV_BOOL01=1'],
        level='bounded', bound='input bytes in {0,1} (documented kernel domain); every count'),
     ej('find_run_length_i32', loops=2), ej('count_non_nulls', loops=2), ej('build_null_bitmap', loops=1),
-    ej('crc32c', loops=2),   # with ~crc pre/post inversion (ab160bd)
+    ej('crc32c', loops=2, backend='cadical'),   # with ~crc pre/post inversion (ab160bd); minisat needs > 300 s for the xor network
     # SSE prefix sums with the signed-overflow obligation kept (tail loop still does int sum += values[i])
     ej('prefix_sum_i32', loops=2, name='c15_sse_prefix_sum_i32_ub'), ej('prefix_sum_i64', loops=2, name='c15_sse_prefix_sum_i64_ub'),
+]
+JOBS += [
+    dict(name='c15_sse_match_copy_bounded', entry='h_sse_match_copy_bounded', prop='C15', harness='harness/C15/sse.c',
+         overlays=[], loop_contracts=False, defines=E['defines'], extra_sources=E['extra_sources'], trusted=E['trusted'],
+         unwindset=['carquet_sse_match_copy.%d:%d' % lb for lb in enumerate([5, 9, 5, 17, 26, 5, 5, 5, 50])] + ['memcpy.0:17'],
+         functions=['carquet_sse_match_copy'], level='bounded', bound='offset 1..32, len 0..48, all buffer contents', wip=True, timeout=600),
 ]
 def lemma(fn, **kw):
     d = dict(name='c15_sse_' + fn, entry='h_sse_' + fn, loop_contracts=False, unwind=66, functions=['carquet_sse_' + fn], wip=True)
